@@ -118,17 +118,19 @@ WRAPPER_CFG = ['--cfg', 'feature="use-curve25519"', '--cfg', 'feature="use-chach
                '--cfg', 'feature="use-sha2"', '--cfg', 'feature="use-blake2"', '--cfg', 'feature="p256"']
 
 
-def build_wrappers(vacuity=False, isolate=()):
-    """R16: the second verification unit (resolvers/default.rs against assumed dependency contracts)"""
-    ex = X.extract_wrappers(REPO, ROOT)
+def build_wrappers(vacuity=False, isolate=(), which='default'):
+    """R16: the wrapper verification units (resolvers/default.rs resp. resolvers/ring.rs against assumed dependency contracts)"""
+    ex = X.extract_wrappers(REPO, ROOT, which=which)
     spec = '//@@SPECFILE spec/00_prims.rs\n' + open(os.path.join(ROOT, 'spec', '00_prims.rs')).read() + '\n'
-    deps = ''.join(open(p).read() + '\n' for p in sorted(glob.glob(os.path.join(ROOT, 'spec', 'deps', '*.rs'))))
+    depfile = 'ring.rs' if which == 'ring' else 'rustcrypto.rs'
+    deps = open(os.path.join(ROOT, 'spec', 'deps', depfile)).read() + '\n'
     src = ex.text.replace('//@SPEC-MODULES@', spec).replace('//@DEPS@', deps)
     vspecs = [(os.path.join('contracts', f), open(os.path.join(ROOT, 'contracts', f)).read()) for f in WRAPPER_SHARED]
-    vspecs += [(os.path.relpath(p, ROOT), open(p).read()) for p in sorted(glob.glob(os.path.join(ROOT, 'contracts', 'wrappers', '*.vspec')))]
+    sub = 'ring' if which == 'ring' else 'wrappers'
+    vspecs += [(os.path.relpath(p, ROOT), open(p).read()) for p in sorted(glob.glob(os.path.join(ROOT, 'contracts', sub, '*.vspec')))]
     woven, info = W.weave(src, vspecs, vacuity=vacuity, isolate=isolate)
     os.makedirs(BUILD, exist_ok=True)
-    path = os.path.join(BUILD, 'snow_wrappers%s.rs' % ('_vacuity' if vacuity else ''))
+    path = os.path.join(BUILD, 'snow_%s%s.rs' % ('ring' if which == 'ring' else 'wrappers', '_vacuity' if vacuity else ''))
     open(path, 'w').write(woven)
     return ex, woven, info, path
 
@@ -374,6 +376,8 @@ UNITS = [
     {'name': 'wrappers', 'build': 'wrappers', 'flags': WRAPPER_CFG + ['--verify-module', 'resolvers::default'],
      'prefixes': ('resolvers::default::',), 'trusted': os.path.join('wrappers', 'trusted.txt')},
     {'name': 'parser', 'build': 'parser', 'flags': [], 'prefixes': PARSER_FNS, 'trusted': os.path.join('parser', 'trusted.txt')},
+    {'name': 'ring', 'build': 'ring', 'flags': ['--cfg', 'feature="ring"', '--cfg', 'feature="ring-resolver"', '--verify-module', 'resolvers::ring'],
+     'prefixes': ('resolvers::ring::',), 'trusted': os.path.join('ring', 'trusted.txt')},
 ]
 
 
@@ -421,6 +425,8 @@ def _collect_unit_once(unit, vacuity, isolate):
                         variants.append((fnid, case))
     elif unit['build'] == 'parser':
         ex, woven, info, path = build_parser(vacuity=vacuity, isolate=isolate)
+    elif unit['build'] == 'ring':
+        ex, woven, info, path = build_wrappers(vacuity=vacuity, isolate=isolate, which='ring')
     else:
         ex, woven, info, path = build_wrappers(vacuity=vacuity, isolate=isolate)
     model = Model(woven, info)
@@ -829,7 +835,7 @@ ALWAYS_PROBE = {'C10'}
 
 ASSUMPTIONS_COMMON = [
     'Extraction rules R1-R22 incl. R7p (framework/extract.py, DESIGN.md 2.1) preserve the semantics of /repo/src; dropped items are unverified',
-    'Trait contracts of Hash/Cipher/Dh/Random/CryptoResolver are ASSUMED for implementations outside the verified text (ring.rs, P-256, XChaChaPoly, Kyber, custom resolvers); for resolvers/default.rs they are proved relative to ASSUMED contracts of the third-party crates (spec/deps/rustcrypto.rs)',
+    'Trait contracts of Hash/Cipher/Dh/Random/CryptoResolver are ASSUMED for implementations outside the verified text (Kyber, custom resolvers); for resolvers/default.rs (incl. P-256, XChaChaPoly) and resolvers/ring.rs they are proved relative to ASSUMED contracts of the third-party crates (spec/deps/rustcrypto.rs, spec/deps/ring.rs)',
     'The standard algorithms (SHA-2, BLAKE2, ChaCha20-Poly1305, AES-256-GCM, X25519) are uninterpreted functions; randomness is a deterministic function of a hidden RNG state (gen_bytes/gen_next)',
     'Path-split verification (DESIGN.md 2.3): functions with @split cases are verified one case per query, the other cases cut by framework-inserted assume(false)',
     'The transcription of Noise rev 34 in /verif/spec is faithful',
